@@ -32,6 +32,27 @@ static void frame(long lo, long hi, const char *why) {
 #endif
 }
 
+#if !defined(VF_CBMC) && defined(MODE_C07)
+/* replay build: the symbolic build checks the reserve rule inside the
+ * assemble_asm stub; here the real encoder runs, so the positions of the
+ * program's instructions are recovered from the buffer afterwards */
+static void native_reserve(int p, long entry, long n) {
+  long from = entry;
+  for (int i = 0; i < KMAX; i++) {
+    if (i >= G_PROG[p].n) break;
+    struct aline *l = &G_PROG[p].l[i];
+    if (l->kind == LK_FAIL) break;
+    if (l->kind != LK_INSTR) continue;
+    long at = glue_find(p, i, g_buf, from, GBUF);
+    if (at < 0) break;
+    CHECK(at + 20 <= n, "an instruction is written only while the documented 20 reserve bytes remain");
+    from = at + l->len;
+  }
+}
+#else
+#define native_reserve(p, entry, n) ((void)0)
+#endif
+
 void harness(void) {
   unsigned long n = IN(0);
   ASSUME(n <= GBUF);
@@ -85,6 +106,7 @@ void harness(void) {
       int rc = asm_assemble_str(al, G_PROG[i].text);
       CHECK(rc == EXIT_SUCCESS || rc == EXIT_FAILURE, "documented return value");
       frame(entry, (long)n, "assemble");
+      native_reserve(i, entry, (long)n);
       break; }
     case 3: { /* counting call */
 #ifdef MODE_C07
@@ -106,6 +128,7 @@ void harness(void) {
       int rc = asm_assemble_string_counting_chunks(al, G_PROG[i].text, (int)a, &cnt);
       CHECK(rc == EXIT_SUCCESS || rc == EXIT_FAILURE, "documented return value");
       frame(entry, (long)n, "counting");
+      native_reserve(i, entry, (long)n);
       break; }
     case 4: { /* another instance is created and destroyed meanwhile */
       assemblyline_t o = asm_create_instance(g_buf2, GBUF);
